@@ -616,6 +616,27 @@ func c05RunOne(data []byte) (res c05Result) {
 				dec.Reset()
 			}
 		}
+		// a tolerant player: whatever DecodeFramesParallel reported, the frames it left behind are used
+		if an2 != nil {
+			entry = "frames after DecodeFramesParallel"
+			for i := range an2.Frames {
+				f := &an2.Frames[i]
+				f.Bounds()
+				if f.HasImage() {
+					if w := wellFormed(f.Image); w != "" {
+						fail("malformed-result", fmt.Sprintf("frame %d after DecodeFramesParallel (err=%v): %s", i, e2, w))
+					}
+				}
+			}
+			if dec2, e5 := animation.NewAnimDecoder(an2); e5 == nil && dec2 != nil {
+				entry = "AnimDecoder.NextFrame after DecodeFramesParallel"
+				for k := 0; dec2.HasNext() && k < c05MaxSnapshots; k++ {
+					if _, _, e6 := dec2.NextFrame(); e6 != nil {
+						break
+					}
+				}
+			}
+		}
 	}
 	entry = "accounting"
 	runtime.ReadMemStats(&ms1)
